@@ -289,7 +289,16 @@ def programs(thorough):
         ("<T, U> where T: Clone", 'a: T, b: U', "U: TypeInfo + 'static", "T: TypeInfo + 'static, U: TypeInfo + 'static", None),
         ("<T, U> where U: TypeInfo + 'static", 'a: core::marker::PhantomData<T>, b: U', '', "U: TypeInfo + 'static", 'T'),
         ("<T: TypeInfo + 'static, U> where U: TypeInfo + 'static", 'a: T, b: U', "T: TypeInfo + 'static", "T: TypeInfo + 'static, U: TypeInfo + 'static", None),
+        # the parameter left out of bounds(..) is used only by members that are #[codec(skip)]: it is still a listed (non-skipped) parameter
+        ("<T: TypeInfo + 'static, U: TypeInfo + 'static>", '#[codec(skip)] a: T, b: U', "U: TypeInfo + 'static", "T: TypeInfo + 'static, U: TypeInfo + 'static", None),
+        ("<T: TypeInfo + 'static, U: TypeInfo + 'static>", 'a: U, #[codec(skip)] b: Vec<T>, #[codec(skip)] c: T', "U: TypeInfo + 'static", "T: TypeInfo + 'static, U: TypeInfo + 'static", None),
+        ("<T: TypeInfo + 'static>", '#[codec(skip)] a: T, b: u8', '', "T: TypeInfo + 'static", None),
+        ("<T, U> where T: TypeInfo + 'static, U: TypeInfo + 'static", '#[codec(skip)] a: T, b: U', "U: TypeInfo + 'static", "T: TypeInfo + 'static, U: TypeInfo + 'static", None),
     ]
+    # ... and by a whole variant that is skipped
+    for bad_b, good_b in (("U: TypeInfo + 'static", "T: TypeInfo + 'static, U: TypeInfo + 'static"),):
+        decl = "pub enum S<T: TypeInfo + 'static, U: TypeInfo + 'static> { #[codec(skip)] A(T), B(U), #[codec(skip)] C { t: Vec<T> } }"
+        add('bounds-missing-param:skipped-variant', 'derive', '#[derive(TypeInfo)]\n#[scale_info(bounds(%s))]\n%s\n' % (bad_b, decl), '#[derive(TypeInfo)]\n#[scale_info(bounds(%s))]\n%s\n' % (good_b, decl), 'requires a `TypeInfo` bound')
     for i, (gen, body, bad_b, good_b, skip) in enumerate(cases):
         sk = (', skip_type_params(%s)' % skip) if skip else ''
         for kind in ('struct', 'enum'):
